@@ -291,6 +291,25 @@ var curatedStrings = []string{
 	"long " + strings.Repeat("value with spaces ", 12) + "end",
 }
 
+// curatedControl: valid UTF-8 strings that are NOT printable single-line text (tab, line breaks of every kind, other
+// control characters, format characters), alone and embedded, next to quotes, backslashes and blanks at the ends. An
+// auth token pasted with its trailing newline, a submit-options JSON document spanning lines or a Windows line ending
+// are ordinary operator inputs; "written to disk loads back equal" holds for them as for any other string. Together
+// with the YAML-significant words again, this time next to such characters.
+var curatedControl = []string{
+	"\t", "\n", "\r", "\r\n", "a\tb", "a\nb", "a\rb", "a\r\nb", "\ta", "a\t", "\na", "a\n", "a\n\n", "\n\na", " \n ", "a \n b", "line1\nline2\nline3\n",
+	"\x00", "a\x00b", "\x01", "\x07", "\x08", "\x0b", "\x0c", "\x1b", "\x1b[31mred\x1b[0m", "\x1f", "\x7f", "a\x7fb",
+	"\u0085", "a\u0085b", "\u00a0", "\u2028", "a\u2028b", "\u2029", "\u200b", "a\u200bb", "\u200e", "\ufeff", "\ufeffa", "\ufffd", "e\u0301", "\U000e0001",
+	"\"", "\\", "\\n", "a\\tb", "\"\n\"", "'\n'", "\\\n", "\"quoted\"\n", "it's\ta tab",
+	" lead", "trail ", " both ", "  ", "\t lead", "trail \t",
+	"null\n", "~\n", "yes\n", "0x10\n", "1e3\n", "- a\n- b", "a: b\nc: d", "#x\n#y", "key: |\n  block", "? a\n: b", "---\na", "...\n", "[a,\nb]", "{a:\n b}",
+	"null", "~", "yes", "0x10", "1e3", "- a", "a: b", "#x",
+	"{\"gas\": 1,\n \"memo\": \"x\ty\"}\n",
+}
+
+// controlAlphabet: what the random control strings are drawn from.
+const controlAlphabet = "ab \t\n\r\x00\x01\x1b\x7f\u0085\u2028\u2029\u200b\ufeff\"'\\:#-?~|>"
+
 var cleanAlphabets = []string{
 	"abcdefghijklmnopqrstuvwxyzABCDEFGHIJKLMNOPQRSTUVWXYZ0123456789-_./:@,=",
 	"aA1 :#-?~<>=!&*|%@`'\"[]{},\\.;()$+^",
